@@ -874,8 +874,11 @@ MANIFEST = dict(
     technique="Coq proof (integer-constant check over a deep embedding of the regenerated C expressions; struct "
               "realisation with forced offsets by induction over the field list) + regeneration of Gen.v from the "
               "source text + differential correspondence on generated API-mode modules against gcc",
-    text="Proof: for every C constant of any promoted integer type and value c and every cdef value e expressible as a C "
-         "literal, lib.X returns c if c = e and raises ffi.error otherwise; with '...' it returns c. For every struct "
+    text="Proof: for every '#define'-style integer constant (any promoted integer type, value c) and every cdef value e "
+         "expressible as a C literal, lib.X returns c if c = e and raises ffi.error otherwise (values that are no C literal "
+         "are refused when the module is generated); with '...' it returns c. This does NOT hold for enumerators: API "
+         "mode passes no check value for them, the compiler's value is used silently (C12_enumerator_check_refuted, "
+         "open finding enumerator-unchecked). For every struct "
          "declaration (named non-bitfield fields) and every compiler report: without '...' realisation succeeds iff "
          "the report equals the layout the cdef implies (offsets, sizes, total size, alignment) and raises ffi.error "
          "otherwise; with '...' only field sizes are compared; a resulting layout is always the compiler's. Tie: the "
@@ -883,6 +886,7 @@ MANIFEST = dict(
          "random (cdef, C) pairs and single-point cdef mutations.",
     note="Partial: the C compiler and the generated glue are exercised by sampling; bitfields and anonymous nested "
          "structs are out of the model. Known findings: enumerator values are not checked in API mode "
-         "(enumerator-unchecked); cdef constants outside (-2^64, 2^64) are truncated by gcc and can be accepted "
-         "(const-beyond-64bit).",
+         "(enumerator-unchecked, open); cdef constants outside (-2^64, 2^64) used to be truncated by gcc and accepted "
+         "(const-beyond-64bit, fixed in /repo 52726e0). Calls, globals, global addresses, typedefs, bitfields and "
+         "anonymous nested structs are decided by the correspondence run only.",
     design_ref="DESIGN.md §4 C12")
